@@ -1,36 +1,58 @@
 """C34 -- importing then exporting a git commit reproduces it byte for byte
-(breezy/git/mapping.py: BzrGitMappingv1.import_commit / export_commit,
+(breezy/git/mapping.py: BzrGitMappingv1.import_commit / export_commit / get_revision_id,
 fix_person_identifier; breezy/git/roundtrip.py is not reached by the v1 mapping
 in lossy mode, the only mode it supports).
 
-Model: lean/BreezyVerif/Model/C34.lean; theorems: Props/C34.lean.
+Model: lean/BreezyVerif/Model/C34.lean; theorems: Props/C34.lean.  The model and
+every theorem are parametric in a CODEC ENVIRONMENT (`Env`): what Python's codec
+registry answers for an encoding name (utf-8 | latin-1 | ascii — implemented in
+Lean — | another text codec | LookupError | ValueError) and, for every other text
+codec, its decode / encode functions.  Nothing is assumed about which names exist
+or what those codecs do (only `PyEnv`: "utf-8" and "latin1" mean what they say).
 
 Every run:
 
 * T2 -- commits are drawn from a grammar over the fields the mapping handles
-  (encoding header none / utf-8 / latin-1 / ascii aliases / `false` / unknown,
-  bytes valid or invalid in it, author = or != committer, equal / different
-  times and zones, `-0000` zones, gpgsig, mergetags, HG:rename-source and
-  HG:extra headers (known / unknown keys, no colon, multi-line and
-  line-boundary values), unknown headers, empty and missing message, canonical
-  and malformed person identifiers), serialised by dulwich, parsed back, passed
-  through the real `import_commit` (parent lookup = revision_id_foreign_to_bzr)
-  and `export_commit(rev, tree, revision_id_bzr_to_foreign, lossy=True, None)`.
-  The exported commit's fields, the revision id, the decoded committer and
-  message and the complete property dict are compared with the model, as are
-  the exception kinds of refused imports / failing exports.
+  (encoding header: none / `false` / bogus / non-text codecs / EVERY name of Python's
+  alias table (`encodings.aliases.aliases` keys and targets) and of the `encodings`
+  package in several spellings (case, `-` `_` space) — ~100 distinct codecs per run —;
+  text valid in the header's codec (built by encoding with it), arbitrary bytes, and byte
+  sequences on which some decoder is not injective (BOMs, utf-7 `+AGE-`, backslash
+  escapes, punycode, iso-2022 / hz shifts); author = or != committer, equal / different
+  times (also negative) and zones, `-0000` zones, gpgsig, mergetags, HG:rename-source
+  and HG:extra headers (known / unknown keys, no colon, multi-line and line-boundary
+  values), unknown headers, empty and missing message, canonical and malformed person
+  identifiers), serialised by dulwich, parsed back, passed through the real
+  `import_commit` (parent lookup = revision_id_foreign_to_bzr), `get_revision_id` and
+  `export_commit(rev, tree, revision_id_bzr_to_foreign, lossy=True, None)`.
+  The exported commit's fields, the revision id, `get_revision_id`'s result or
+  exception, the decoded committer and message and the complete property dict are
+  compared with the model, as are the exception kinds of refused imports / failing
+  exports.  For a header naming a codec outside utf-8/latin-1/ascii the request carries
+  the registry's answer and the codec's behaviour on the strings of this commit (a finite
+  table computed with the real codec; a lookup outside it is an error, never a default).
+  A second stream perturbs the serialised TEXT (timezone `+100`, zero-padded time, swapped /
+  duplicated / reordered headers, no tree, identity without `> `): commits dulwich parses
+  but would not write.
   `fix_person_identifier` is compared exhaustively on all strings of length
-  <= 5 over `<`, `>`, space, comma, `a`.
+  <= 5 over `<`, `>`, space, comma, `a`; on the same strings the classifier regex of the
+  oracle is compared with the model's `Canon` condition (fixed point, not cut by the comma hack).
 * Oracle (model independent) -- for every commit `import_commit` accepts (strict):
   the export must succeed, `as_raw_string()` and the SHA-1 must be identical
   to the original, and `get_revision_id(commit)` = revision id of the imported
-  revision = `git-v1:<sha>` (stable under re-import).
+  revision = revision id of a second import = `git-v1:<sha>`.
 
 Findings (`_classify`, family slug computed from the concrete commit):
-missing-message, person-ident-noncanonical, git-extra-embedded-newline.
+missing-message, person-ident-noncanonical, git-extra-embedded-newline,
+encoding-noninjective-codec (NEW: header codec with field.decode(c).encode(c) != field —
+utf-8-sig, utf-7, utf-16/32, unicode_escape, idna, iso2022_*, mac_arabic ...),
+commit-text-noncanonical (NEW, raw stream: dulwich would not write this text).
 Fixed in /repo b3a449a (now modelled as working, no family): `encoding false`
 (export and get_revision_id), extra-header values containing a str.splitlines()
 boundary other than "\n".
+Code variant: `probe_variant` detects whether a strict import refuses a commit whose header
+codec does not reproduce its text (the fix proposed for encoding-noninjective-codec); the
+model has both variants (`fx`), with `exp_imp_id_fixed_strict_partial` for the fixed one.
 
 Mutants this was built against (scratch worktree, breezy/git/mapping.py); "oracle" = a
 concrete commit whose re-export differs, T2 = model/implementation mismatch:
@@ -47,11 +69,22 @@ concrete commit whose re-export differs, T2 = model/implementation mismatch:
   after fix b3a449a: R1 fix reverted (all three hunks) -> oracle (LookupError / ValueError on export,
        get_revision_id raises) + T2;  R2 `.split("\n")[:-1]` -> `.split("\n")` (trailing empty line) -> oracle + T2
        R3 in the `encoding == "false"` branch `git-implicit-encoding` ignored (needs `encoding false` + latin-1 bytes) -> oracle + T2
+  improvement round (codec environment):
+  N1 get_revision_id no longer catches UnicodeDecodeError (needs an undeclared latin-1 commit) .. oracle (revid) + T2 (818)
+  N5 git-explicit-encoding stored with `_` -> `-` (needs an alias spelled with `_`: UTF_8, iso_8859_1) oracle (230) + T2
+  N6 message decoded with errors="replace" under a declared codec (needs invalid bytes in it) ... oracle (49) + T2
+  N8 the proposed fix applied but checking only the message (needs a BOM in an identity) ........ oracle + T2 (16)
+  harmless N4: export lower-cases the codec name before encoding -> clean (0 mismatches)
 """
 import itertools
 
 THEOREMS = [
     "exp_imp_id_partial",
+    "exp_imp_id_std_partial",
+    "std_codec_faithful",
+    "get_revision_id_agrees",
+    "encoding_noninjective_codec_witness",
+    "unknown_encoding_rejected",
     "revid_stable",
     "revid_independent",
     "imp_rejects_unknown_extra",
@@ -64,18 +97,24 @@ THEOREMS = [
     "git_extra_embedded_newline_witness",
     "git_extra_formfeed_roundtrips",
 ]
-RULE = ("commits drawn from a field grammar (see module docstring); a case is one commit in one "
+RULE = ("commits drawn from a field grammar (see module docstring; encoding names from Python's full codec "
+        "alias table) plus textual perturbations of serialised commits; a case is one commit in one "
         "strictness mode; non-trivial = anything beyond tree+idents+message is present or the "
         "commit is refused")
 ASSUMPTIONS = [
     "dulwich parses back what it serialised (checked per case; other cases are skipped and counted)",
     "bytes.decode(c).encode(c) is the identity for utf-8, latin-1, ascii and utf-8/surrogateescape "
-    "(checked per case on every decoded field)",
+    "(checked per case on every decoded field); for every OTHER codec nothing is assumed: its behaviour "
+    "is an explicit parameter (Env) of the model and of every theorem",
+    "PyEnv: Python's registry resolves the literal names 'utf-8' and 'latin1' to utf-8 and latin-1",
     "str(int) / int(str) round-trip (int-valued properties keep the integer in the model)",
 ]
 TRUSTED = [
     "dulwich Commit/Tag parsing and serialisation and SHA-1 are external (exercised, not modelled)",
-    "a decoded Python str is modelled as (codec, bytes); ASCII-only string operations are done on the bytes",
+    "a decoded Python str is modelled as (codec, bytes) — for a codec of the environment the bytes are the "
+    "str's UTF-8/surrogatepass form; ASCII-only string operations are done on the bytes",
+    "Python's codec registry and codecs (codecs.lookup, bytes.decode, str.encode) are external: the model "
+    "receives their answers for the strings of each case",
     "the revision property dict is modelled as a record with one field per key the mapping writes",
 ]
 
@@ -86,7 +125,135 @@ ENC_ASCII = [b"ascii", b"us-ascii"]
 ENC_BOGUS = [b"klingon", b"x-none", b"utf-99"]
 HG_KEYS = [b"amend_source", b"rebase_source", b"absorb_source", b"intermediate-source", b"source", b"topic",
            b"_rewrite_noise"]
-PY_CODEC = {"utf-8": "utf-8", "latin1": "latin-1", "ascii": "ascii"}
+PY_CODEC = {"utf-8": ("utf-8", "strict"), "latin1": ("latin-1", "strict"), "ascii": ("ascii", "strict"),
+            "ext": ("utf-8", "surrogatepass")}     # how the model represents a decoded str, per codec tag
+LK_OF_NAME = {"utf-8": "u8", "iso8859-1": "l1", "ascii": "as"}
+NONTEXT = [b"hex", b"base64", b"rot13", b"zlib", b"bz2", b"uu", b"quopri", b"rot_13", b"hex_codec"]
+SPECIAL_BYTES = [b"\xef\xbb\xbf", b"\xff\xfe", b"\xfe\xff", b"+AGE-", b"+-", b"+AOk-", b"\\x41", b"\\u00e9", b"\\n", b"\\",
+                 b"xn--", b"xn--caf-dma", b"\x1b(B", b"\x1b$B", b"\x1b(J", b"~{", b"~}", b"~~", b"\x0e", b"\x0f", b"\x8e", b"\x80",
+                 b"\x81", b"\xa0", b"\xff", b"\x00"]
+_POOL = None
+
+
+def codec_pool():
+    """every name Python's codec registry knows on this interpreter: the alias table
+    (`encodings.aliases.aliases`, keys and targets) and the module names of the `encodings`
+    package, as (name, kind) with kind from `lookup_kind`; sorted, so seed-deterministic"""
+    global _POOL
+    if _POOL is None:
+        import encodings, encodings.aliases, pkgutil
+        names = set(encodings.aliases.aliases) | set(encodings.aliases.aliases.values())
+        names |= {mi.name for mi in pkgutil.iter_modules(encodings.__path__)}
+        import codecs
+        pool = {"u8": [], "l1": [], "as": [], "ext": {}, "unk": []}
+        for n in sorted(names):
+            k = lookup_kind(n.encode("ascii"))
+            if k == "ext":
+                # grouped by codec, so that codecs with many aliases are not drawn more often
+                pool[k].setdefault(codecs.lookup(n).name, []).append(n.encode("ascii"))
+            elif k in pool:
+                pool[k].append(n.encode("ascii"))
+        pool["ext-codecs"] = sorted(pool["ext"])
+        # codecs whose decode is stateful / signature-stripping / escape-interpreting
+        pool["ext-hot"] = [c for c in pool["ext-codecs"] if c.startswith(("utf-8-sig", "utf-7", "utf-16", "utf-32",
+                           "unicode-escape", "raw-unicode-escape", "idna", "punycode", "iso2022", "hz"))]
+        _POOL = pool
+    return _POOL
+
+
+def lookup_kind(enc):
+    """what Python's registry says about the header value: u8 | l1 | as (the three codecs the Lean
+    model implements), ext (another text codec), unk (LookupError, incl. non-text codecs),
+    bad (ValueError: embedded NUL), - (not ASCII: never looked up)"""
+    import codecs
+    try:
+        n = enc.decode("ascii")
+    except UnicodeDecodeError:
+        return "-"
+    try:
+        ci = codecs.lookup(n)
+    except LookupError:
+        return "unk"
+    except ValueError:
+        return "bad"
+    if not ci._is_text_encoding:
+        return "unk"
+    return LK_OF_NAME.get(ci.name, "ext")
+
+
+def _spell(rng, name):
+    """a spelling variant the registry normalises away (case, `-`/`_`/space, surrounding space)"""
+    r = rng.random()
+    if r < 0.4:
+        return name
+    if r < 0.55:
+        return name.upper()
+    if r < 0.7:
+        return name.replace(b"_", b"-")
+    if r < 0.8:
+        return name.replace(b"_", b" ").replace(b"-", b" ")
+    if r < 0.87:
+        return name.replace(b"-", b"_").title()
+    if r < 0.94:
+        return name + b" "
+    return name.replace(b"_", b"__")
+
+
+def _codec_errlabel(e):
+    if isinstance(e, UnicodeDecodeError):
+        return "UnicodeDecode"
+    if isinstance(e, UnicodeEncodeError):
+        return "UnicodeEncode"
+    if isinstance(e, LookupError):
+        return "Lookup"
+    if isinstance(e, ValueError):
+        return "Value"
+    return "Other"
+
+
+def _srepr(s):
+    return s.encode("utf-8", "surrogatepass")
+
+
+def _hack(a):
+    return a.split(",")[0] if ("," in a and a.count(">") > 1) else a
+
+
+def env_fields(f):
+    """(LK, DEC, ENC) of the model line: the registry's answer for the header name and — for an
+    `ext` codec — the codec's own behaviour on the byte strings / strs this commit can reach"""
+    enc = f["encoding"]
+    if enc is None:
+        return "-", "-", "-"
+    lk = lookup_kind(enc)
+    if lk != "ext":
+        return lk, "-", "-"
+    name = enc.decode("ascii")
+    dec, strs = [], [""]
+    seen = set()
+    for b in (f["committer"], f["author"], f["message"]):
+        if not b or b in seen:
+            continue
+        seen.add(b)
+        try:
+            st = b.decode(name)
+        except Exception as e:
+            dec.append(hx(b) + ":E" + _codec_errlabel(e))
+            continue
+        dec.append(hx(b) + ":" + hx(_srepr(st)))
+        strs.append(st)
+        strs.append(_hack(st))
+    encs, seen = [], set()
+    for st in strs:
+        if st in seen:
+            continue
+        seen.add(st)
+        try:
+            out = hx(st.encode(name))
+        except Exception as e:
+            out = "E" + _codec_errlabel(e)
+        encs.append(hx(_srepr(st)) + ":" + out)
+    return lk, hl(dec), hl(encs)
 
 
 def _mapping():
@@ -149,24 +316,40 @@ def _tag(rng):
 def gen_commit(rng):
     """a dict of commit fields (bytes as latin-1 str so that the case is JSON-able)"""
     r = rng.random()
-    if r < 0.45:
+    codec = None        # Python codec used to BUILD valid text for an `ext` header (None: raw bytes)
+    if r < 0.36:
         enc, kind = None, rng.choice(["ascii", "utf8", "utf8", "high"])
-    elif r < 0.6:
+    elif r < 0.46:
         enc, kind = rng.choice(ENC_UTF8), rng.choice(["ascii", "utf8", "utf8", "high"])
-    elif r < 0.75:
+    elif r < 0.55:
         enc, kind = rng.choice(ENC_LATIN), rng.choice(["ascii", "high", "high", "utf8"])
-    elif r < 0.82:
+    elif r < 0.59:
         enc, kind = rng.choice(ENC_ASCII), rng.choice(["ascii", "ascii", "high"])
-    elif r < 0.9:
+    elif r < 0.66:
         enc, kind = b"false", rng.choice(["ascii", "utf8", "high"])
-    elif r < 0.97:
-        enc, kind = rng.choice(ENC_BOGUS), "ascii"
-    else:
+    elif r < 0.70:
+        enc, kind = rng.choice(ENC_BOGUS + NONTEXT + [b"", b" ", b"utf.8", b"utf\x008", b"aliases", b"__init__"]), "ascii"
+    elif r < 0.72:
         enc, kind = b"utf-\xe9", "ascii"
+    elif r < 0.80:
+        # every alias / module name of the three modelled codecs, in any spelling
+        pool = codec_pool()
+        k = rng.choice(["u8", "u8", "l1", "l1", "as"])
+        enc = _spell(rng, rng.choice(pool[k]))
+        kind = rng.choice({"u8": ["ascii", "utf8", "utf8", "high"], "l1": ["ascii", "high", "high", "utf8"],
+                           "as": ["ascii", "ascii", "high"]}[k])
+    else:
+        # any other text codec of the registry
+        pool = codec_pool()
+        base = rng.choice(pool["ext"][rng.choice(pool["ext-hot"] if rng.random() < 0.3 else pool["ext-codecs"])])
+        enc = _spell(rng, base)
+        kind = rng.choice(["ascii", "ascii", "utf8", "high"])
+        if rng.random() < 0.6:
+            codec = base.decode("ascii")
     canonical = rng.random() < 0.88
     committer = _person(rng, kind, canonical or rng.random() < 0.5)
     author = committer if rng.random() < 0.4 else _person(rng, kind, canonical or rng.random() < 0.5)
-    ctime = rng.choice([0, 1, 4, 10**9, rng.randint(0, 2**31)])
+    ctime = rng.choice([0, 1, 4, 10**9, rng.randint(0, 2**31), -1, -(10**9)] if rng.random() < 0.1 else [0, 1, 4, 10**9, rng.randint(0, 2**31)])
     atime = ctime if rng.random() < 0.5 else rng.choice([0, 5, ctime + 1, max(0, ctime - 1), rng.randint(0, 2**31)])
     zones = [0, 0, 60, -60, 3600, -3600, 19800, -34200, 99 * 3600 + 59 * 60, -(99 * 3600 + 59 * 60)]
     ctz = rng.choice(zones)
@@ -204,10 +387,41 @@ def gen_commit(rng):
         message = _text(rng, kind, 0, 12, [b"a", b"b", b" ", b"\n", b"\n", b"\r", b".", b"-"])
         if rng.random() < 0.5:
             message += b"\n"
+    if codec is not None:
+        # text that is VALID in the header's codec: the generated bytes are read as utf-8 (else latin-1)
+        # text and encoded with the codec (left alone when the codec cannot encode it)
+        committer, author = _recode(committer, codec), (_recode(author, codec) if author != committer else None)
+        author = committer if author is None else author
+        message = _recode(message, codec) if message is not None else None
+    if enc is not None and lookup_kind(enc) == "ext" and rng.random() < 0.45:
+        # byte sequences on which some codec's decode is not injective (BOMs, utf-7 / escape / punycode /
+        # iso-2022 shift sequences), placed inside the name / at the start of a field
+        sp = rng.choice(SPECIAL_BYTES)
+        which = rng.choice(["message", "message", "committer", "both", "all"])
+        if which in ("message", "all") and message is not None:
+            i = rng.choice([0, 0, len(message), rng.randint(0, len(message))])
+            message = message[:i] + sp + message[i:]
+        if which in ("committer", "both", "all"):
+            same = author == committer
+            committer = sp + committer
+            if same or which in ("both", "all"):
+                author = sp + author if not same else committer
     c = dict(tree=_sha(rng), parents=[_sha(rng) for _ in range(rng.choice([0, 1, 1, 2, 3]))],
              author=author, atime=atime, atz=atz, aneg=aneg, committer=committer, ctime=ctime, ctz=ctz, cneg=cneg,
              encoding=enc, mergetags=mergetags, extra=extra, gpgsig=gpgsig, message=message)
     return c
+
+
+def _recode(b, codec):
+    try:
+        t = b.decode("utf-8")
+    except UnicodeDecodeError:
+        t = b.decode("latin-1")
+    try:
+        out = t.encode(codec)
+    except Exception:
+        return b
+    return out if b"\n" not in out or b"\n" in b else b
 
 
 def jsonable(c):
@@ -301,15 +515,47 @@ def commit_fields_line(f):
         hopt(f["gpgsig"]), hopt(f["message"])])
 
 
-def model_line(strict, cid, f):
-    return "rt %s %s %s" % (tf(strict), hx(cid), commit_fields_line(f))
+_VARIANT = None
+
+
+def probe_variant(m):
+    """which code variant is under test: (fx, label).  fx = a strict import refuses a commit whose
+    header codec does not reproduce its text (the fix proposed for `encoding-noninjective-codec`);
+    label = how that refusal is rendered (its exception class may already be in IMPORT_ERR)."""
+    global _VARIANT
+    if _VARIANT is None:
+        from dulwich.objects import Commit
+        c = Commit.from_string(b"tree cc9462f7f8263ef5adfbeff2fb936bb36b504cba\nauthor A <a@x> 10 +0000\n"
+                               b"committer A <a@x> 10 +0000\nencoding utf-8-sig\n\nhello\n")
+        try:
+            m.import_commit(c, m.revision_id_foreign_to_bzr, strict=True)
+            _VARIANT = (False, "Irreversible")
+        except Exception as e:
+            known = _errname(e, IMPORT_ERR)
+            if known == "Other":
+                IMPORT_ERR.insert(0, (type(e).__name__, "Irreversible"))
+                known = "Irreversible"
+            _VARIANT = (True, known)
+    return _VARIANT
+
+
+def model_line(strict, cid, f, fx=None):
+    if fx is None:
+        fx = _VARIANT[0]
+    return "rt %s %s %s %s %s %s %s" % ((tf(fx), tf(strict), hx(cid)) + env_fields(f) + (commit_fields_line(f),))
+
+
+def model_reply(rep):
+    """the model's reply with the variant's refusal rendered like the implementation's"""
+    return rep.replace(" I:Irreversible", " I:" + _VARIANT[1])
 
 
 IMPORT_ERR = [("UnicodeDecodeError", "UnicodeDecode"), ("UnknownCommitEncoding", "UnknownEncoding"),
               ("UnknownMercurialCommitExtra", "UnknownHgExtra"), ("UnknownCommitExtra", "UnknownExtra"),
-              ("ValueError", "Value")]
-EXPORT_ERR = [("LookupError", "Lookup"), ("UnicodeEncodeError", "CodecMismatch"), ("ValueError", "Value"),
+              ("LookupError", "Lookup"), ("ValueError", "Value")]
+EXPORT_ERR = [("LookupError", "Lookup"), ("UnicodeEncodeError", "UnicodeEncode"), ("ValueError", "Value"),
               ("IndexError", "Index"), ("AttributeError", "Attr"), ("AssertionError", "Assert")]
+REVID_ERR = [("UnicodeDecodeError", "UnicodeDecode"), ("LookupError", "Lookup"), ("ValueError", "Value")]
 
 
 def _errname(e, table):
@@ -317,7 +563,7 @@ def _errname(e, table):
         for n, short in table:
             if cls.__name__ == n:
                 return short
-    return "Other:" + type(e).__name__
+    return "Other"
 
 
 def props_render(props, codec):
@@ -329,7 +575,7 @@ def props_render(props, codec):
         if k in ("author-timestamp", "author-timezone"):
             items.append("%s=%d" % (k, int(v)))
         elif k in ("author",):
-            items.append("%s=%s" % (k, hx(v.encode(PY_CODEC[codec]))))
+            items.append("%s=%s" % (k, hx(v.encode(*PY_CODEC[codec]))))
         elif k in ("git-explicit-encoding", "git-implicit-encoding", "git-missing-message"):
             items.append("%s=%s" % (k, hx(v.encode("ascii"))))
         elif k in ("author-timezone-neg-utc", "commit-timezone-neg-utc"):
@@ -340,43 +586,48 @@ def props_render(props, codec):
 
 
 def run_real(m, raw, strict):
-    """(stage, payload): ('I', errname) | ('X', errname, rev) | ('ok', commit2, rev)"""
+    """(commit, (stage, payload), gid): ('I', errname) | ('X', errname, rev) | ('ok', commit2, rev);
+    gid = get_revision_id(commit) in the driver's format"""
     from dulwich.objects import Commit
     c1 = Commit.from_string(raw)
     try:
+        gid = "G:" + hx(m.get_revision_id(c1))
+    except Exception as e:
+        gid = "G:E" + _errname(e, REVID_ERR)
+    try:
         rev, rrid, ver = m.import_commit(c1, m.revision_id_foreign_to_bzr, strict=strict)
     except Exception as e:
-        return c1, ("I", _errname(e, IMPORT_ERR))
+        return c1, ("I", _errname(e, IMPORT_ERR)), gid
     try:
         c2 = m.export_commit(rev, c1.tree, lambda revid: m.revision_id_bzr_to_foreign(revid)[0], True, None)
         c2.as_raw_string()
     except Exception as e:
-        return c1, ("X", _errname(e, EXPORT_ERR), rev)
-    return c1, ("ok", c2, rev)
+        return c1, ("X", _errname(e, EXPORT_ERR), rev), gid
+    return c1, ("ok", c2, rev), gid
 
 
-def impl_out(res, model_reply):
+def impl_out(res, model_reply, gid):
     """implementation output in the driver's format; the codec tag for str values is taken from
     the model's reply (a wrong tag makes the encode fail or differ -> mismatch)"""
     if res[0] == "I":
-        return "I:" + res[1]
+        return gid + " I:" + res[1]
     rev = res[-1]
     parts = model_reply.split(" ")
     codec = None
-    for cand in ("utf-8", "latin1", "ascii"):
+    for cand in ("utf-8", "latin1", "ascii", "ext"):
         if cand in parts:
             codec = cand
             break
     if codec is None:
-        return "?no-codec-in-model-reply"
+        return gid + " ?no-codec-in-model-reply"
     try:
-        tail = " ".join([hx(rev.revision_id), codec, hx(rev.committer.encode(PY_CODEC[codec])),
-                         hx(rev.message.encode(PY_CODEC[codec])), props_render(rev.properties, codec)])
+        tail = " ".join([hx(rev.revision_id), codec, hx(rev.committer.encode(*PY_CODEC[codec])),
+                         hx(rev.message.encode(*PY_CODEC[codec])), props_render(rev.properties, codec)])
     except UnicodeEncodeError:
         tail = "?cannot-encode-with-" + codec
     if res[0] == "X":
-        return "X:%s %s" % (res[1], tail)
-    return "ok %s %s" % (commit_fields_line(fields_of(res[1])), tail)
+        return gid + " X:%s %s" % (res[1], tail)
+    return gid + " ok %s %s" % (commit_fields_line(fields_of(res[1])), tail)
 
 
 # --------------------------------------------------------------------------
@@ -390,13 +641,46 @@ def _canonical_person(p):
     return not (b"," in p and p.count(b">") > 1)
 
 
+def _ext_strs(f):
+    """for a header naming an `ext` codec: (unfaithful, strs) — is there a text field with
+    field.decode(codec).encode(codec) != field, and the decoded committer / author strs"""
+    enc = f["encoding"]
+    if enc is None or lookup_kind(enc) != "ext":
+        return False, []
+    name = enc.decode("ascii")
+    unfaithful, strs = False, []
+    for b, is_ident in ((f["committer"], True), (f["author"], True), (f["message"], False)):
+        if b is None:
+            continue
+        try:
+            st = b.decode(name)
+        except Exception:
+            continue
+        if is_ident:
+            strs.append(st)
+        try:
+            if st.encode(name) != b:
+                unfaithful = True
+        except Exception:
+            unfaithful = True
+    return unfaithful, strs
+
+
 def _classify(f):
     """family slug of a failing round trip, computed from the concrete commit fields.
     (`encoding false` and the non-"\n" splitlines boundaries in extra headers were fixed in
     /repo b3a449a: if they fail again they are plain violations, family None.)"""
     if f["message"] is None:
         return "missing-message"
+    unfaithful, strs = _ext_strs(f)
+    if unfaithful:
+        # the header names a codec (not utf-8 / latin-1 / ascii) that does not re-encode one of
+        # author / committer / message to the bytes it was decoded from
+        return "encoding-noninjective-codec"
     if not _canonical_person(f["author"]) or not _canonical_person(f["committer"]):
+        return "person-ident-noncanonical"
+    if any(st == "" or _hack(st) != st for st in strs):
+        # the same author normalisation, seen through a codec that is not ASCII-transparent
         return "person-ident-noncanonical"
     if any(k in (b"HG:rename-source", b"HG:extra") and b"\n" in v for k, v in f["extra"]):
         return "git-extra-embedded-newline"
@@ -409,6 +693,11 @@ def oracle(ctx, m, case, raw, c1, res, strict):
     f = fields_of(c1)
     if not strict and any(k not in (b"HG:rename-source", b"HG:extra") for k, v in f["extra"]):
         return      # non-strict import drops unknown headers by design
+    if not strict and _VARIANT[0] and _ext_strs(f)[0]:
+        # variant with the fix: only the strict import (the one whose revisions are exported again)
+        # refuses a codec that does not reproduce the text; the lenient import is lossy by design
+        ctx.count("non-strict:lossy-codec-accepted")
+        return
     if not strict:
         for k, v in f["extra"]:
             if k == b"HG:extra" and v.split(b":", 1)[0] not in HG_KEYS:
@@ -419,10 +708,14 @@ def oracle(ctx, m, case, raw, c1, res, strict):
         gid = m.get_revision_id(c1)
     except Exception as e:
         gid = "raised %r" % (e,)
-    if rev.revision_id != want or gid != want:
+    try:
+        again = m.import_commit(c1, m.revision_id_foreign_to_bzr, strict=strict)[0].revision_id
+    except Exception as e:
+        again = "re-import raised %r" % (e,)
+    if rev.revision_id != want or gid != want or again != want:
         ctx.count("revid-unstable")
-        ctx.violation(case, "revision id not derived from the sha alone: import gives %r, get_revision_id %r, sha %r"
-                      % (rev.revision_id, gid, c1.id), family=None)
+        ctx.violation(case, "revision id not derived from the sha alone: import gives %r, re-import %r, get_revision_id %r, sha %r"
+                      % (rev.revision_id, again, gid, c1.id), family=None)
     if res[0] == "X":
         fam = _classify(f)
         ctx.count("roundtrip-fails:" + str(fam))
@@ -481,12 +774,18 @@ def one_case(ctx, m, c, strict, batch):
         # dulwich did not parse back what it serialised: outside the assumption
         ctx.count("skip:dulwich-not-faithful")
         return
-    c1, res = run_real(m, raw, strict)
+    c1, res, gid = run_real(m, raw, strict)
     case = dict(strict=strict, commit=jsonable(c))
     feats = _features(f)
     ctx.case(case, nontrivial=bool(feats) or res[0] != "ok")
     for ft in feats:
         ctx.count("feature:" + ft)
+    if f["encoding"] is not None:
+        lk = lookup_kind(f["encoding"])
+        ctx.count("lookup:" + lk)
+        if lk == "ext":
+            import codecs
+            ctx.count("codec:" + codecs.lookup(f["encoding"].decode("ascii")).name)
     ctx.count("result:" + (res[0] if res[0] == "ok" else res[0] + ":" + res[1]))
     ctx.count("strict" if strict else "non-strict")
     if res[0] != "I":
@@ -496,19 +795,194 @@ def one_case(ctx, m, c, strict, batch):
             if isinstance(v, str):
                 v.encode("utf-8", "surrogateescape")
     oracle(ctx, m, case, raw, c1, res, strict)
-    batch.append((case, model_line(strict, c1.id, f), res))
+    batch.append((case, model_line(strict, c1.id, f), res, gid))
 
 
 def flush(ctx, batch):
     if not batch:
         return
     replies = ctx.model([b[1] for b in batch])
-    for (case, line, res), rep in zip(batch, replies):
+    for (case, line, res, gid), rep in zip(batch, replies):
         ctx.traces += 1
-        out = impl_out(res, rep)
+        rep = model_reply(rep)
+        out = impl_out(res, rep, gid)
         if out != rep:
             ctx.mismatch(case, out, rep, line=line)
     del batch[:]
+
+
+# --------------------------------------------------------------------------
+# raw-text stream: commits that are NOT in the image of dulwich's serialiser
+# --------------------------------------------------------------------------
+
+PERTURB = ["tz-short", "tz-long", "time-zeros", "time-space", "swap-idents", "encoding-first", "dup-encoding",
+           "dup-author", "extra-before-encoding", "gpgsig-before-extra", "no-tree", "tree-last", "no-gt",
+           "crlf-header", "dup-committer"]
+
+
+def _headers(raw):
+    """(list of header entries — each the full text of a header line with its continuation lines —, rest)"""
+    head, sep, rest = raw.partition(b"\n\n")
+    if not sep:
+        head, rest = raw.rstrip(b"\n"), None
+    out = []
+    for line in head.split(b"\n"):
+        if line.startswith(b" ") and out:
+            out[-1] += b"\n" + line
+        else:
+            out.append(line)
+    return out, rest
+
+
+def _unheaders(hs, rest):
+    return b"\n".join(hs) + (b"\n\n" + rest if rest is not None else b"\n")
+
+
+def perturb(rng, raw, how):
+    """a textual variant of a dulwich-serialised commit that dulwich parses to (mostly) the same
+    fields but would not write; None when `how` does not apply"""
+    import re
+    hs, rest = _headers(raw)
+    key = lambda h: h.split(b" ", 1)[0]
+    idx = {k: [i for i, h in enumerate(hs) if key(h) == k] for k in set(map(key, hs))}
+
+    def sub_ident(which, pat, rep):
+        if which not in idx:
+            return None
+        i = idx[which][0]
+        new, n = re.subn(pat, rep, hs[i], flags=re.S)
+        if n == 0 or new == hs[i]:
+            return None
+        hs[i] = new
+        return _unheaders(hs, rest)
+    who = rng.choice([b"author", b"committer"])
+    if how == "tz-short":
+        return sub_ident(who, rb" ([+-])0(\d\d\d)$", rb" \g<1>\2")
+    if how == "tz-long":
+        return sub_ident(who, rb" ([+-])(\d\d\d\d)$", rb" \g<1>0\2")
+    if how == "time-zeros":
+        return sub_ident(who, rb"> (\d+) ([+-]\d+)$", rb"> 00\1 \2")
+    if how == "time-space":
+        return sub_ident(who, rb"> (-?\d+) ([+-]\d+)$", rb">  \1 \2")
+    if how == "no-gt":
+        return sub_ident(who, rb"> (-?\d+ [+-]\d+)$", rb" \1")
+    if how == "crlf-header":
+        if b"encoding" not in idx:
+            return None
+        hs[idx[b"encoding"][0]] += b"\r"
+        return _unheaders(hs, rest)
+    if how == "swap-idents":
+        a, c = idx[b"author"][0], idx[b"committer"][0]
+        if hs[a].split(b" ", 1)[1] == hs[c].split(b" ", 1)[1]:
+            return None
+        hs[a], hs[c] = hs[c], hs[a]
+        return _unheaders(hs, rest)
+    if how in ("encoding-first", "dup-encoding"):
+        if b"encoding" not in idx:
+            return None
+        i = idx[b"encoding"][0]
+        if how == "encoding-first":
+            hs.insert(0, hs.pop(i))
+        else:
+            hs.insert(i, b"encoding " + rng.choice(ENC_UTF8 + ENC_LATIN + ENC_BOGUS))
+        return _unheaders(hs, rest)
+    if how in ("dup-author", "dup-committer"):
+        k = b"author" if how == "dup-author" else b"committer"
+        hs.insert(idx[k][0], k + b" Dup <d@x> 7 +0200")
+        return _unheaders(hs, rest)
+    if how == "extra-before-encoding":
+        ex = [i for i, h in enumerate(hs) if key(h) in (b"HG:extra", b"HG:rename-source")]
+        if not ex or b"encoding" not in idx:
+            return None
+        h = hs.pop(ex[0])
+        hs.insert(hs.index(next(x for x in hs if key(x) == b"encoding")), h)
+        return _unheaders(hs, rest)
+    if how == "gpgsig-before-extra":
+        ex = [i for i, h in enumerate(hs) if key(h) in (b"HG:extra", b"HG:rename-source", b"mergetag")]
+        if not ex or b"gpgsig" not in idx:
+            return None
+        hs.insert(ex[0], hs.pop(idx[b"gpgsig"][0]))
+        return _unheaders(hs, rest)
+    if how == "no-tree":
+        hs.pop(idx[b"tree"][0])
+        return _unheaders(hs, rest)
+    if how == "tree-last":
+        hs.append(hs.pop(idx[b"tree"][0]))
+        return _unheaders(hs, rest)
+    return None
+
+
+def dulwich_canonical(f, raw):
+    """is `raw` what dulwich writes for the fields it parsed from it (classifier of the family
+    `commit-text-noncanonical`; independent of breezy)"""
+    try:
+        return build_raw(f) == raw
+    except Exception:
+        return False
+
+
+def _modelable(f):
+    return all(isinstance(f[k], int) for k in ("atime", "atz", "ctime", "ctz")) and f["tree"] is not None and \
+        all(isinstance(f[k], bytes) for k in ("author", "committer"))
+
+
+def raw_case(ctx, m, raw, how, strict, batch, record=True):
+    from dulwich.objects import Commit
+    try:
+        c1 = Commit.from_string(raw)
+        f = fields_of(c1)
+    except Exception:
+        ctx.count("raw:skip:dulwich-parse-error")
+        return
+    if dulwich_canonical(f, raw):
+        ctx.count("raw:skip:still-canonical")
+        return
+    try:
+        c1, res, gid = run_real(m, raw, strict)
+    except Exception as e:
+        ctx.count("raw:skip:" + type(e).__name__)
+        return
+    case = dict(kind="raw", how=how, strict=strict, raw=raw.decode("latin-1"))
+    if record:
+        ctx.case(case, nontrivial=True)
+    ctx.count("raw:" + how)
+    ctx.count("raw-result:" + (res[0] if res[0] == "ok" else res[0] + ":" + res[1]))
+    if res[0] != "I" and (strict or all(k in (b"HG:rename-source", b"HG:extra") for k, v in f["extra"])):
+        # accepted: the re-export must be the same bytes
+        if res[0] == "X":
+            ctx.count("roundtrip-fails:commit-text-noncanonical")
+            ctx.violation(case, "import_commit accepts a commit text dulwich would not write (%s) but export_commit raises %s"
+                          % (how, res[1]), family="commit-text-noncanonical")
+        elif res[1].as_raw_string() != raw:
+            ctx.count("roundtrip-fails:commit-text-noncanonical")
+            ctx.violation(case, "export(import(commit)) differs from the commit; the commit text is not in dulwich's "
+                          "canonical form (%s): %r -> %r" % (how, raw, res[1].as_raw_string()),
+                          family="commit-text-noncanonical")
+        else:
+            ctx.count("raw:roundtrips")
+    if _modelable(f):
+        batch.append((case, model_line(strict, c1.id, f), res, gid))
+
+
+def raw_stream(ctx, m, n):
+    """audit item: the grammar stream only produces texts in the image of dulwich's serialiser"""
+    rng = ctx.rng
+    batch = []
+    for i in range(n):
+        c = gen_commit(rng)
+        raw = build_raw(c)
+        if raw is None:
+            continue
+        how = rng.choice(PERTURB)
+        try:
+            raw2 = perturb(rng, raw, how)
+        except Exception:
+            raw2 = None
+        if raw2 is None or raw2 == raw:
+            ctx.count("raw:skip:not-applicable")
+            continue
+        raw_case(ctx, m, raw2, how, rng.random() < 0.85, batch)
+    flush(ctx, batch)
 
 
 def fix_stream(ctx):
@@ -528,6 +1002,11 @@ def fix_stream(ctx):
             ctx.case(cases[-1], nontrivial=(b"<" in s or b">" in s))
             if o != "E:Value" and o == hx(s) != "-":
                 ctx.count("fix:fixpoint")
+            # the oracle's classifier regex == the model's Canon condition on identifiers
+            # (fixed point of fix_person_identifier and not cut by the "," hack), on the real function
+            fixpoint = (o == hx(s) and s != b"") and not (b"," in s and s.count(b">") > 1)
+            if _canonical_person(s) != fixpoint:
+                ctx.mismatch(cases[-1], "canonical-regex=%s" % _canonical_person(s), "fixpoint=%s" % fixpoint)
     ctx.count("fix:total", len(cases))
     ctx.diff(cases, lines, outs)
 
@@ -535,7 +1014,10 @@ def fix_stream(ctx):
 def run(ctx, n=None):
     m = _mapping()
     rng = ctx.rng
+    fx, label = probe_variant(m)
+    ctx.extra["variant"] = dict(strict_import_checks_reencoding=fx, refusal_rendered_as=label)
     fix_stream(ctx)
+    raw_stream(ctx, m, (n or ctx.pick(6000, 80000)) // 8)
     batch = []
     for i in range(n or ctx.pick(6000, 80000)):
         c = gen_commit(rng)
@@ -552,6 +1034,7 @@ def widen(ctx):
 
 def replay(ctx, case):
     m = _mapping()
+    probe_variant(m)
     if case.get("kind") == "fix":
         from breezy.git.mapping import fix_person_identifier
         s = case["s"].encode()
@@ -560,13 +1043,23 @@ def replay(ctx, case):
         except ValueError:
             o = "E:Value"
         return dict(impl=o, model=ctx.model(["fix " + hx(s)])[0])
+    if case.get("kind") == "raw":
+        raw, batch = case["raw"].encode("latin-1"), []
+        raw_case(ctx, m, raw, case["how"], case["strict"], batch, record=False)
+        out = dict(raw=repr(raw), oracle_failures=[dict(what=v["what"], family=v["family"]) for v in ctx.violations])
+        if batch:
+            _, line, res, gid = batch[0]
+            rep = model_reply(ctx.model([line])[0])
+            out.update(impl=impl_out(res, rep, gid), model=rep)
+            out["model_agrees"] = out["impl"] == out["model"]
+        return out
     c = unjson(case["commit"])
     strict = case["strict"]
     raw = build_raw(c)
-    c1, res = run_real(m, raw, strict)
+    c1, res, gid = run_real(m, raw, strict)
     oracle(ctx, m, case, raw, c1, res, strict)
-    rep = ctx.model([model_line(strict, c1.id, fields_of(c1))])[0]
-    out = impl_out(res, rep)
+    rep = model_reply(ctx.model([model_line(strict, c1.id, fields_of(c1))])[0])
+    out = impl_out(res, rep, gid)
     return dict(raw=repr(raw), result=res[0] if res[0] == "ok" else list(res[:2]),
                 exported=repr(res[1].as_raw_string()) if res[0] == "ok" else None,
                 impl=out, model=rep, model_agrees=out == rep,
